@@ -92,7 +92,11 @@ func RunShard(prop *Prop, tier string, seed uint64, shard, of int) *WorkerResult
 		plan := prop.Generate(r, run, tier)
 		plan.Format, plan.Property, plan.Seed, plan.Run, plan.Tier, plan.World = 1, prop.ID, seed, run, tier, prop.World
 		st := NewStats()
+		t0 := time.Now()
 		v, herr := SafeExecute(prop, plan, st)
+		if d := time.Since(t0); d > 2*time.Second {
+			fmt.Fprintf(os.Stderr, "slow run: %s run %d took %v (%d events)\n", prop.ID, run, d, len(plan.Events))
+		}
 		if herr != nil {
 			res.HarnessErr = fmt.Sprintf("run %d: %v", run, herr)
 			b, _ := json.Marshal(plan)
@@ -298,12 +302,18 @@ func RunCheck(prop *Prop, tier string, seed uint64, workers int, verifDir string
 	reported := map[string]bool{}
 	var minInfos []map[string]interface{}
 	replayMismatch := false
+	triaged := 0
 	for _, fp := range failing {
 		v := fp.Violation
 		key := v.Oracle + "|" + v.Sig
 		if reported[key] {
 			continue
 		}
+		if triaged >= 6 {
+			fmt.Printf("note: further failing runs (run %d, %s) are not minimised in this invocation\n", fp.Run, v.Oracle)
+			continue
+		}
+		triaged++
 		execOnce := func(c *Plan) *Violation {
 			vv, herr := SafeExecute(prop, c, NewStats())
 			if herr != nil {
